@@ -11,6 +11,7 @@
 (* Then EVERY instance of every operation is a successor:                  *)
 (*   DoMarg / DoReduce     every non-empty proper subset (x every point)   *)
 (*   DoCanon, DoCToJoint   Gaussian -> canonical form -> Gaussian          *)
+(*   DoDensity             log-density at every pool point                 *)
 (*   DoProduct             every ordered pair of pool members              *)
 (*   DoCMarg / DoCReduce / DoCProduct   the same on canonical forms        *)
 (* each in-place and out-of-place.  Emit prints operands and the expected  *)
@@ -45,25 +46,27 @@ Ready == objs # <<>> /\ out.op = "none"
 OK == {k \in 1..Len(objs) : objs[k].ok}
 Proper(S) == (SUBSET S) \ {{}, S}
 Pt(n, V) == VSub(P.pts[n], V)
+\* a Gaussian result together with its information matrix (what the object's precision_matrix must report afterwards)
+GP(G) == [S |-> G.S, mu |-> G.mu, cov |-> G.cov, prec |-> MInv(G.cov, OrdOf(ord, G.S))]
 
 DoMarg == /\ Ready
           /\ \E k \in OK : \E V \in Proper(objs[k].G.S) : \E ip \in BOOLEAN :
-                out' = [op |-> "marginalize", a |-> objs[k].G, vars |-> V, inplace |-> ip, res |-> GMarg(objs[k].G, V)]
+                out' = [op |-> "marginalize", a |-> objs[k].G, vars |-> V, inplace |-> ip, res |-> GP(GMarg(objs[k].G, V))]
           /\ UNCHANGED <<pi, objs>>
 DoReduce == /\ Ready
             /\ \E k \in OK : \E V \in Proper(objs[k].G.S) : \E n \in 1..Len(P.pts) : \E ip \in BOOLEAN :
-                  out' = [op |-> "reduce", a |-> objs[k].G, at |-> Pt(n, V), inplace |-> ip, res |-> GReduce(objs[k].G, ord, Pt(n, V))]
+                  out' = [op |-> "reduce", a |-> objs[k].G, at |-> Pt(n, V), inplace |-> ip, res |-> GP(GReduce(objs[k].G, ord, Pt(n, V)))]
             /\ UNCHANGED <<pi, objs>>
 DoCanon == /\ Ready
            /\ \E k \in OK : out' = [op |-> "to_canonical", a |-> objs[k].G, res |-> objs[k].C]
            /\ UNCHANGED <<pi, objs>>
 DoCToJoint == /\ Ready
-              /\ \E k \in OK : out' = [op |-> "to_joint", a |-> objs[k].C, g0 |-> objs[k].G, res |-> CToJoint(objs[k].C, ord)]
+              /\ \E k \in OK : out' = [op |-> "to_joint", a |-> objs[k].C, g0 |-> objs[k].G, res |-> GP(CToJoint(objs[k].C, ord))]
               /\ UNCHANGED <<pi, objs>>
 DoProduct == /\ Ready
              /\ \E k \in OK : \E l \in OK : \E ip \in BOOLEAN :
                    out' = [op |-> "product", a |-> objs[k].G, b |-> objs[l].G, same |-> (k = l), inplace |-> ip,
-                           res |-> CToJoint(CProduct(objs[k].C, objs[l].C), ord)]
+                           res |-> GP(CToJoint(CProduct(objs[k].C, objs[l].C), ord))]
              /\ UNCHANGED <<pi, objs>>
 DoCMarg == /\ Ready
            /\ \E k \in OK : \E V \in Proper(objs[k].G.S) : \E ip \in BOOLEAN :
@@ -78,7 +81,12 @@ DoCProduct == /\ Ready
                     out' = [op |-> "c_product", a |-> objs[k].C, b |-> objs[l].C, same |-> (k = l), inplace |-> ip,
                             res |-> CProduct(objs[k].C, objs[l].C)]
               /\ UNCHANGED <<pi, objs>>
-Next == Build \/ DoMarg \/ DoReduce \/ DoCanon \/ DoCToJoint \/ DoProduct \/ DoCMarg \/ DoCReduce \/ DoCProduct
+\* the value of the density at a point (log, as a symbolic normal form)
+DoDensity == /\ Ready
+             /\ \E k \in OK : \E n \in 1..Len(P.pts) :
+                   out' = [op |-> "pdf", a |-> objs[k].G, c |-> objs[k].C, at |-> Pt(n, objs[k].G.S), res |-> CLogAt(objs[k].C, Pt(n, objs[k].G.S))]
+             /\ UNCHANGED <<pi, objs>>
+Next == Build \/ DoDensity \/ DoMarg \/ DoReduce \/ DoCanon \/ DoCToJoint \/ DoProduct \/ DoCMarg \/ DoCReduce \/ DoCProduct
 
 \* ------------------------------------------------------------------ design-level lemmas
 \* members are what the pool says: positive definite, K Sigma = I, and the canonical form is the log-density:
@@ -123,7 +131,7 @@ LemProductGaussian == out.op = "product" =>
        /\ K = MAdd(MExt(Ka, out.a.S, T), MExt(Kb, out.b.S, T), T, T)
        /\ MVec(K, out.res.mu, T, T) = VAdd(VExt(MVec(Ka, out.a.mu, out.a.S, out.a.S), out.a.S, T),
                                            VExt(MVec(Kb, out.b.mu, out.b.S, out.b.S), out.b.S, T), T)
-LemRoundTrip == out.op = "to_joint" => out.res = out.g0
+LemRoundTrip == out.op = "to_joint" => out.res.S = out.g0.S /\ out.res.mu = out.g0.mu /\ out.res.cov = out.g0.cov /\ out.res.prec = out.a.K
 
 Emit == out.op # "none" => PrintT(ToJson([pool |-> P.id, out |-> out]))
 =============================================================================
